@@ -121,6 +121,7 @@ class StmtMixin:
             raise E.Unsupported(f"assign target {type(t).__name__}")
 
     def unpack(self, v, n):
+        v = self.force(v)
         if isinstance(v, VTuple):
             items = list(v.items)
         else:
@@ -232,6 +233,8 @@ class StmtMixin:
             return None
         if isinstance(a, VNone) and isinstance(b, VNone):
             return a
+        if isinstance(a, VOpt) or isinstance(b, VOpt):
+            return None
         if isinstance(a, VTuple) and isinstance(b, VTuple) and len(a.items) == len(b.items):
             xs = [self.merge_value(c, x, y) for x, y in zip(a.items, b.items)]
             return None if any(x is None for x in xs) else VTuple(xs)
@@ -392,7 +395,7 @@ class StmtMixin:
             if self.cur_exc:
                 raise self.cur_exc[-1]
             raise E.PyExc(VExc("RuntimeError"), "bare raise")
-        v = self.eval(node.exc, frame)
+        v = self.force(self.eval(node.exc, frame))
         if isinstance(v, VExcClass):
             v = VExc(v.name)
         if not isinstance(v, VExc):
@@ -486,7 +489,7 @@ class StmtMixin:
         if len(node.items) != 1:
             raise E.Unsupported("multi-item with")
         item = node.items[0]
-        cm = self.eval(item.context_expr, frame)
+        cm = self.force(self.eval(item.context_expr, frame))
         if isinstance(cm, VRef) and cm.kind == "lock":
             self.lock_acquire(cm, ast.unparse(item.context_expr))
             try:
@@ -537,7 +540,7 @@ class StmtMixin:
 
     def s_For(self, node, frame):
         spec = self.loop_spec(node)
-        it = self.eval(node.iter, frame)
+        it = self.force(self.eval(node.iter, frame))
         items = None
         try:
             items = self.iter_items(it)
